@@ -150,17 +150,25 @@ theorem step_est {gs : List Group} (o : Op) {g' : Group} (hg' : g' ∈ (step gs 
       · left; exact h
       · right; subst h1; subst h2; exact ⟨h3, i, sy, rfl⟩
     · left; exact ⟨g', hg', rfl, he⟩
-  | add p n =>
+  | add p n k =>
     left
-    simp only [step, add] at hg'
-    split at hg'
-    · exact ⟨g', hg', rfl, he⟩
-    · have := mem_sortG.mp (startFirst_est hg' he)
+    simp only [step] at hg'
+    rcases add_cases gs p n k with ⟨rc, _, h⟩ | ⟨_, _, h⟩
+    · rw [h] at hg'
+      exact ⟨g', hg', rfl, he⟩
+    · rw [h] at hg'
+      have := mem_sortG.mp (startFirst_est hg' he)
       rcases List.mem_append.mp this with h | h
       · exact ⟨g', h, rfl, he⟩
       · simp only [List.mem_singleton] at h
         subst h
         cases he
+  | setiv p a b c =>
+    left
+    simp only [step, setIvs] at hg'
+    rcases mem_modG hg' with ⟨h1, _⟩ | ⟨g0, hg0, _, rfl⟩
+    · exact ⟨g', h1, rfl, he⟩
+    · exact ⟨g0, hg0, rfl, he⟩
   | remove p =>
     left
     simp only [step, remove] at hg'
